@@ -306,6 +306,17 @@ parse_next_record_header:
         if (ssl->rec.len < 2 + TLS_GCM_TAG_LEN)
         {
             /* If it's this short, it cannot be an encrypted. */
+            if (ssl->rec.len != 2)
+            {
+                /* An alert record holds exactly one two-byte alert
+                   (RFC 8446, 5.1). Only two bytes are consumed below: a
+                   longer record would leave the input position inside
+                   this record. */
+                ssl->err = SSL_ALERT_DECODE_ERROR;
+                psTraceIntInfo("Invalid plaintext alert length: %d\n",
+                        ssl->rec.len);
+                goto encodeResponse;
+            }
             rc = tls13ParseAndHandleAlert(ssl,
                     &pb,
                     in,
